@@ -14,14 +14,14 @@ func init() { register("leid", "C08", runLeid) }
 // literal "earliest"), then one subscribe per combination of the three carriers of the requested id
 // x requested id class, on both transports, compat on/off — through the real SubscribeHandler.
 func runLeid(c *h.Ctx, r *h.Report) {
-	r.Rule = "a history of 0-12 publishes (retention size in {0,1,3}; ids explicit, one of them possibly the literal 'earliest'), then subscribers for the 2^3 combinations of {Last-Event-ID header, lastEventID query, legacy Last-Event-ID query} x requested id in {first stored, middle, last, discarded by retention, unknown, 'earliest'} (different ids in different carriers so precedence is observable) x compat7 on/off x both transports, through the real handler; the Last-Event-ID response header and the replayed stream are compared with the model. Non-trivial = case with at least two carriers set to different ids or a history truncated by retention; distinct by content."
+	r.Rule = "a history of 0-12 publishes (retention size in {0,1,3}; ids explicit, possibly repeated ([v1 v2 v1]: negotiation resumes after the FIRST occurrence), one of them possibly the literal 'earliest'), then subscribers for the 2^3 combinations of {Last-Event-ID header, lastEventID query, legacy Last-Event-ID query} x requested id in {first stored, middle, last, discarded by retention, unknown, 'earliest'} (different ids in different carriers so precedence is observable) x compat7 on/off x both transports, through the real handler; the Last-Event-ID response header and the replayed stream are compared with the model. Non-trivial = case with at least two carriers set to different ids or a history truncated by retention; distinct by content."
 	o := gen.NewOracle()
 	g := installCountingUUID()
 	n := c.Scale(40, 1500)
 	star := claimsJSON("publish", []string{"*"}, "")
 	for i := 0; i < n; i++ {
 		rr := c.Rand.Fork()
-		cs := hubCase{Cfg: hubCfg{PubAlg: "HS256", SubAlg: "HS256", Anonymous: true, Compat7: rr.Bool(), Bolt: i%4 != 0}}
+		cs := hubCase{AllPublic: true, Cfg: hubCfg{PubAlg: "HS256", SubAlg: "HS256", Anonymous: true, Compat7: rr.Bool(), Bolt: i%4 != 0}}
 		if cs.Cfg.Bolt {
 			cs.Size = h.Pick(rr, []uint64{0, 0, 1, 3})
 		}
@@ -34,6 +34,9 @@ func runLeid(c *h.Ctx, r *h.Report) {
 			id := fmt.Sprintf("e%d", k)
 			if rr.Chance(1, 20) {
 				id = "earliest"
+			}
+			if len(ids) > 0 && rr.Chance(1, 5) {
+				id = h.Pick(rr, ids) // publisher-chosen ids may repeat: [v1 v2 v1]
 			}
 			ids = append(ids, id)
 			cs.Ops = append(cs.Ops, hubOp{Op: "pub", Form: url.Values{"topic": {"t"}, "id": {id}, "data": {"d"}}, Claims: star})
